@@ -7,6 +7,39 @@ variable {α : Type}
 
 def pendKeys (s : Sys α) : List Key := s.pending.flatten.map (·.1)
 
+/-- in every prefix of the log, a key with a `posttask` already had its `pretask` -/
+def Ordered (log : List (Ev × State α)) : Prop :=
+  ∀ l1 l2, log = l1 ++ l2 → ∀ k, k ∈ postKeys l1 → k ∈ preKeys l1
+
+theorem Ordered.append {log ext : List (Ev × State α)} (h : Ordered log)
+    (hext : ∀ l1 l2, ext = l1 ++ l2 → ∀ k, k ∈ postKeys l1 → k ∈ preKeys (log ++ l1)) : Ordered (log ++ ext) := by
+  intro m1 m2 hm k hk
+  rcases List.append_eq_append_iff.mp hm with ⟨a', h1, h2⟩ | ⟨c', h1, h2⟩
+  · -- m1 = log ++ a'
+    subst h1
+    rw [postKeys_append] at hk
+    rcases List.mem_append.mp hk with hk1 | hk1
+    · rw [preKeys_append]
+      exact List.mem_append_left _ (h log [] (by simp) k hk1)
+    · exact hext a' m2 h2 k hk1
+  · -- log = m1 ++ c'
+    exact h m1 c' h1 k hk
+
+theorem postKeys_nil_of_no_post (l : List (Ev × State α)) (h : ∀ e ∈ l, ∀ k, e.1 ≠ Ev.posttask k) : postKeys l = [] := by
+  induction l with
+  | nil => rfl
+  | cons e l ih =>
+    have h1 := h e (by simp)
+    have h2 := ih (fun e he => h e (List.mem_cons_of_mem _ he))
+    unfold postKeys at h2 ⊢
+    rw [List.filterMap_cons]
+    split
+    · exact h2
+    · rename_i k hk
+      split at hk
+      · rename_i k' hk'; exact absurd hk' (h1 k')
+      · cases hk
+
 /-- `rest` = the part of the batch being processed that has not been looked at yet (`[]` between iterations) -/
 structure BatchInv (cfg : Cfg) (den : Key → α) (rest : List (Key × α)) (s : Sys α) : Prop where
   inv : Inv cfg.g cfg.results s.st
@@ -23,8 +56,30 @@ structure BatchInv (cfg : Cfg) (den : Key → α) (rest : List (Key × α)) (s :
   preSnap : ∀ e ∈ s.log, ∀ k, e.1 = Ev.pretask k →
     ∀ d ∈ e.2.depsOf k, e.2.cache.get? d = some (den d) ∧ done cfg.g e.2 d
   noFinish : ∀ e ∈ s.log, ∀ b, e.1 ≠ Ev.finish b
+  ordered : Ordered s.log
 
 abbrev SysInv (cfg : Cfg) (den : Key → α) (s : Sys α) : Prop := BatchInv cfg den [] s
+
+/-- events emitted inside the main loop -/
+def midEv : Ev → Bool
+  | .pretask _ => true
+  | .submit _ => true
+  | .posttask _ => true
+  | _ => false
+
+/-- `l'` extends `l` by loop events only -/
+def LogExt (l l' : List (Ev × State α)) : Prop := ∃ ext, l' = l ++ ext ∧ ∀ e ∈ ext, midEv e.1 = true
+
+theorem LogExt.refl (l : List (Ev × State α)) : LogExt l l := ⟨[], by simp, by simp⟩
+
+theorem LogExt.trans {l1 l2 l3 : List (Ev × State α)} (h1 : LogExt l1 l2) (h2 : LogExt l2 l3) : LogExt l1 l3 := by
+  obtain ⟨e1, rfl, he1⟩ := h1
+  obtain ⟨e2, rfl, he2⟩ := h2
+  refine ⟨e1 ++ e2, by simp, ?_⟩
+  intro e he
+  rcases List.mem_append.mp he with h | h
+  · exact he1 e h
+  · exact he2 e h
 
 theorem preKeys_submits (bs : List (List (Key × α))) (st : State α) :
     preKeys (bs.map (fun b => (Ev.submit (b.map (·.1)), st))) = [] := by
@@ -57,7 +112,7 @@ theorem fire_spec {cfg : Cfg} (P : Params α) {den : Key → α} (hden : IsDen c
       s'.st.released = s.st.released ∧ s'.st.dependencies = s.st.dependencies ∧
       (∃ n, s'.st.ready = s.st.ready.drop n ∧ ∀ j, j ∈ s'.st.running ↔ j ∈ s.st.running ∨ j ∈ s.st.ready.take n) ∧
       (∃ bs, s'.pending = s.pending ++ bs) ∧
-      (s.st.running = [] → s.st.ready ≠ [] → s'.pending ≠ []) := by
+      (s.st.running = [] → s.st.ready ≠ [] → s'.pending ≠ []) ∧ LogExt s.log s'.log := by
   -- number of tasks to pop and the batch size
   have hstep : ∃ ntasks cs' : Int,
       fireSelect cfg s.st.ready.length s.st.running.length = .ok (ntasks, cs') ∧
@@ -117,7 +172,7 @@ theorem fire_spec {cfg : Cfg} (P : Params α) {den : Key → α} (hden : IsDen c
   generalize hbs : batches cs'.toNat nb.toNat ([] ++ args') = bs at hflat hbne
   simp only [List.nil_append] at hflat
   refine ⟨{ st := s1, pending := s.pending ++ bs, log := (s.log ++ log') ++ bs.map (fun b => (Ev.submit (b.map (·.1)), s1)) },
-    ?_, ?_, c2, c4, c1, c3, c5, ⟨ntasks.toNat, hready, hrun⟩, ⟨_, rfl⟩, ?_⟩
+    ?_, ?_, c2, c4, c1, c3, c5, ⟨ntasks.toNat, hready, hrun⟩, ⟨_, rfl⟩, ?_, ?_⟩
   · unfold fireTasks
     simp only []
     rw [hsel]
@@ -132,7 +187,7 @@ theorem fire_spec {cfg : Cfg} (P : Params α) {den : Key → α} (hden : IsDen c
       simp [hargs]
     have hrunS : ∀ k, k ∈ pendKeys s ↔ k ∈ s.st.running := by
       intro k; have := h.running k; simpa using this
-    refine ⟨hinv1, ?_, ?_, ?_, ?_, ?_, ?_, ?_, ?_, ?_, ?_, ?_, ?_⟩
+    refine ⟨hinv1, ?_, ?_, ?_, ?_, ?_, ?_, ?_, ?_, ?_, ?_, ?_, ?_, ?_⟩
     · intro d v hv; exact h.sound d v (by rw [← c1]; exact hv)
     · rw [hpk]
       simp only [List.map_nil, List.append_nil]
@@ -206,6 +261,22 @@ theorem fire_spec {cfg : Cfg} (P : Params α) {den : Key → α} (hden : IsDen c
       · obtain ⟨b', _, hb⟩ := List.mem_map.mp he1
         rw [← hb] at hk
         cases hk
+    · show Ordered ((s.log ++ log') ++ bs.map (fun b => (Ev.submit (b.map (·.1)), s1)))
+      rw [List.append_assoc]
+      apply h.ordered.append
+      intro l1 l2 hl k hk
+      have : postKeys l1 = [] := by
+        apply postKeys_nil_of_no_post
+        intro e he k' hk'
+        have he' : e ∈ log' ++ bs.map (fun b => (Ev.submit (b.map (·.1)), s1)) := by
+          rw [hl]; exact List.mem_append_left _ he
+        rcases List.mem_append.mp he' with he1 | he1
+        · obtain ⟨k2, hk2, _⟩ := hev e he1
+          rw [hk2] at hk'; cases hk'
+        · obtain ⟨b', _, hb⟩ := List.mem_map.mp he1
+          rw [← hb] at hk'; cases hk'
+      rw [this] at hk
+      cases hk
   · intro hrun0 hr0
     have h1 := hprog hrun0 hr0
     show s.pending ++ bs ≠ []
@@ -216,6 +287,13 @@ theorem fire_spec {cfg : Cfg} (P : Params α) {den : Key → α} (hden : IsDen c
     rw [← hflat] at hlen
     simp at hlen
     omega
+  · refine ⟨log' ++ bs.map (fun b => (Ev.submit (b.map (·.1)), s1)), by simp, ?_⟩
+    intro e he
+    rcases List.mem_append.mp he with he1 | he1
+    · obtain ⟨k, hk, _⟩ := hev e he1
+      rw [hk]; rfl
+    · obtain ⟨b, _, hb⟩ := List.mem_map.mp he1
+      rw [← hb]; rfl
 
 /-- acyclic graph: when nothing is running and something is waiting, something is ready
 (so `fire_tasks` submits work and `queue_get` does not block for ever) -/
